@@ -328,7 +328,9 @@ pub fn explore(case: &SchedCase, prep: &State, cfg: &ExploreCfg) -> CaseResult
                                 for sn in res.snaps
                                 {
                                     loc.snaps_seen += 1;
-                                    let k = canon_key(&sn.fs, &[sn.in_cmd as u8, sn.torn.is_some() as u8]);
+                                    let mut extra = vec![sn.in_cmd as u8, sn.torn.is_some() as u8];
+                                    extra.extend_from_slice(&crate::hist::order_signature(&sn.fs));
+                                    let k = canon_key(&sn.fs, &extra);
                                     loc.snaps.entry(k).or_insert(sn);
                                 }
                                 for f in res.findings
